@@ -2,12 +2,40 @@
 from sx import instr, mfs, env
 
 
+from sx import replay as _rp
+
+
+class RealFS:
+    """Replay mode: the real file system under a temporary directory."""
+
+    def __init__(self, root):
+        import pathlib
+        self.root = pathlib.Path(root)
+        self.n = 0
+
+    def path(self, s='/'):
+        p = self.root / s.lstrip('/')
+        return p
+
+
+def in_replay():
+    return _rp.MODE['replay']
+
+
 def setup(full=True, hash_mode='uf'):
+    if _rp.MODE['replay']:
+        return
     instr.install(full=full)
     instr.HASH_MODE[0] = hash_mode
 
 
 def fresh_fs():
+    if _rp.MODE['replay']:
+        import tempfile
+        fs = RealFS(tempfile.mkdtemp(dir=_rp.MODE['tmp']))
+        fs.path('/data').mkdir(parents=True)
+        fs.path('/cfg').mkdir(parents=True)
+        return fs
     fs = mfs.FS()
     fs.path('/data').mkdir(parents=True)
     fs.path('/cfg').mkdir(parents=True)
@@ -29,7 +57,7 @@ def config(fs, classes, data, name='cfg', namespace=None, context=None, global_v
 
 def chain(cfg, shared=None, parameter_mode=True):
     from taskchain import Chain
-    if shared is None and parameter_mode:
+    if shared is None and parameter_mode and not _rp.MODE['replay']:
         shared = instr.SymDict()
     return Chain(cfg, shared_tasks=shared, parameter_mode=parameter_mode)
 
